@@ -493,7 +493,7 @@ fn do_abandon_sync(ctx: &Ctx, s: &WriteSpec, at: AbandonAt) -> Out {
     };
     let chunks = cut_chunks(&data, &s.chunks);
     let n = match at {
-        AbandonAt::AfterChunks(n) | AbandonAt::MidFlight(n) => n.min(chunks.len()),
+        AbandonAt::AfterChunks(n) | AbandonAt::MidFlight(n) | AbandonAt::CancelThenCommit(n) => n.min(chunks.len()),
         AbandonAt::AfterFlush => chunks.len(),
     };
     for ch in &chunks[..n] {
@@ -505,6 +505,11 @@ fn do_abandon_sync(ctx: &Ctx, s: &WriteSpec, at: AbandonAt) -> Out {
         if let Err(e) = w.flush() {
             return io_out(e);
         }
+    }
+    if let AbandonAt::CancelThenCommit(_) = at {
+        // nothing can be cancelled in the sync API: a plain commit of the chunks so far
+        let _ = w.commit();
+        return Out::Unit;
     }
     drop(w);
     Out::Unit
@@ -518,13 +523,26 @@ async fn do_abandon_async(ctx: &Ctx<'_>, s: &WriteSpec, at: AbandonAt) -> Out {
     };
     let chunks = cut_chunks(&data, &s.chunks);
     let n = match at {
-        AbandonAt::AfterChunks(n) | AbandonAt::MidFlight(n) => n.min(chunks.len()),
+        AbandonAt::AfterChunks(n) | AbandonAt::MidFlight(n) | AbandonAt::CancelThenCommit(n) => n.min(chunks.len()),
         AbandonAt::AfterFlush => chunks.len(),
     };
     for ch in &chunks[..n] {
         if let Err(e) = async_write_chunk(&mut w, ch).await {
             return io_out(e);
         }
+    }
+    if let AbandonAt::CancelThenCommit(_) = at {
+        if n < chunks.len() {
+            use std::future::Future;
+            let waker = futures::task::noop_waker();
+            let mut cx = std::task::Context::from_waker(&waker);
+            let mut fut = Box::pin(w.write(chunks[n]));
+            let _ = fut.as_mut().poll(&mut cx);
+            drop(fut);
+        }
+        // whatever it returns, it must return
+        let _ = w.commit().await;
+        return Out::Unit;
     }
     if let AbandonAt::MidFlight(_) = at {
         if n < chunks.len() {
@@ -882,7 +900,18 @@ pub fn link_target_arg(ctx: &Ctx, l: &LinkSpec) -> PathBuf {
     let abs = ctx.target_path(l.target);
     if l.relative {
         let cwd = std::env::current_dir().expect("cwd");
-        pathdiff(&abs, &cwd)
+        let rel = pathdiff(&abs, &cwd);
+        if l.dotdot_via_symlink {
+            // `s` -> `<cwd>/r1/r2`, so `s/../..` is the working directory again (for the
+            // kernel; folding `s/..` textually would be wrong)
+            let _ = std::fs::create_dir_all(cwd.join("r1").join("r2"));
+            if std::fs::symlink_metadata(cwd.join("s")).is_err() {
+                let _ = std::os::unix::fs::symlink(cwd.join("r1").join("r2"), cwd.join("s"));
+            }
+            PathBuf::from("s/../..").join(rel)
+        } else {
+            rel
+        }
     } else {
         abs
     }
@@ -942,7 +971,13 @@ fn do_link_sync(ctx: &Ctx, l: &LinkSpec) -> Out {
             Ok(mut lk) => {
                 for &n in &l.pre_reads {
                     let mut buf = vec![0u8; n.max(1)];
-                    if let Err(e) = lk.read(&mut buf) {
+                    let r = if l.vectored_reads && buf.len() >= 2 {
+                        let (a, b) = buf.split_at_mut(n.max(2) / 2);
+                        lk.read_vectored(&mut [std::io::IoSliceMut::new(a), std::io::IoSliceMut::new(b)])
+                    } else {
+                        lk.read(&mut buf)
+                    };
+                    if let Err(e) = r {
                         return io_out(e);
                     }
                 }
